@@ -15,6 +15,7 @@ pub mod sync {
     #[cfg(not(feature = "no-unsafe"))]
     pub struct Mutex<T> {
         held: ::std::cell::Cell<bool>,
+        held_by_other: ::std::cell::Cell<bool>,
         v: ::std::cell::UnsafeCell<T>,
     }
     #[cfg(not(feature = "no-unsafe"))]
@@ -31,12 +32,21 @@ pub mod sync {
     #[cfg(not(feature = "no-unsafe"))]
     impl<T> Mutex<T> {
         pub const fn new(v: T) -> Self {
-            Self { held: ::std::cell::Cell::new(false), v: ::std::cell::UnsafeCell::new(v) }
+            Self { held: ::std::cell::Cell::new(false), held_by_other: ::std::cell::Cell::new(false), v: ::std::cell::UnsafeCell::new(v) }
         }
         pub fn lock(&self) -> Result<MutexGuard<'_, T>, Poisoned> {
+            if self.held.get() && self.held_by_other.get() {
+                // another thread holds the lock (harness-simulated): lock() blocks -- this path ends here
+                kani::assume(false);
+            }
             assert!(!self.held.get(), "mutex locked twice by the same (only) thread: self-deadlock");
             self.held.set(true);
             Ok(MutexGuard { m: self })
+        }
+        /// harness: pretend that another thread holds (or releases) the lock
+        pub fn set_held_by_other(&self, held: bool) {
+            self.held.set(held);
+            self.held_by_other.set(held);
         }
         pub fn try_lock(&self) -> Result<MutexGuard<'_, T>, Poisoned> {
             if self.held.get() {
